@@ -293,14 +293,14 @@ class Profiler:
         if event not in ("call", "return"):
             return
         co = frame.f_code
-        mine = co.co_filename.startswith(self.root) and co.co_name != "<module>"
-        # consumption of a global generator since the previous event belongs to the syne_tune function on top
+        if not co.co_filename.startswith(self.root) or co.co_name == "<module>":
+            return
+        # consumption of a global generator since the previous syne_tune event belongs to the syne_tune function on
+        # top of the stack (frames of other packages in between are attributed to their syne_tune caller)
         mark = self.rng_mark()
         if self.last is not None and mark != self.last:
             self.rng_consumers.add(self.stack[-1] if self.stack else ("<harness>", 0, ""))
         self.last = mark
-        if not mine:
-            return
         k = self.key_of(co)
         if event == "return":
             if self.stack and self.stack[-1] == k:
@@ -331,7 +331,8 @@ def run_sched_case(case, twin, repo):
     ev = pyrandom.Random(case["event_seed"])
     pert = pyrandom.Random("%s-%s" % (case["perturb_seed"], twin))
     space = build_space(case["space"])
-    prof = Profiler(repo, case.get("targets")) if (case.get("profile") or case.get("targets")) else None
+    # profiling (executed functions, dynamic call edges, attribution) in twin A only: twin B carries the interleaving
+    prof = Profiler(repo, case.get("targets")) if (case.get("targets") or (case.get("profile") and twin == "A")) else None
     rec = Recorder(prof)
     sink = io.StringIO()
     others = []
